@@ -348,7 +348,11 @@ func generate(rng *rand.Rand, steps int, profile string) ([]string, []string, ma
 				g.feat["clone-missing"] = true
 			} else {
 				k := rng.Intn(len(ch))
-				if rng.Intn(2) == 0 {
+				if rng.Intn(5) == 0 {
+					// the transfer of a snapshot file is cut in the middle: no clone may come of it
+					g.do("clone " + ch[k].name + " fault")
+					g.feat["clone-transfer-cut"] = true
+				} else if rng.Intn(2) == 0 {
 					g.do("clone " + ch[k].name + " late")
 					g.feat["clone-status-late"] = true
 				} else {
